@@ -2,6 +2,10 @@ use super::encoding::{Default, Encoding};
 use super::*;
 
 pub trait Length {
+    /// Whether [Length::serialize] returns padding (which belongs behind a text) rather than a
+    /// length prefix.
+    const PADS: bool = false;
+
     fn serialize(len: usize) -> Vec<u8>;
     fn deserialize(bytes: &[u8]) -> ZVTResult<(usize, &[u8])>;
 }
@@ -29,6 +33,8 @@ impl Length for Empty {
 pub struct Fixed<const N: usize>(pub usize);
 
 impl<const N: usize> Length for Fixed<N> {
+    const PADS: bool = true;
+
     fn serialize(len: usize) -> Vec<u8> {
         vec![0; N - len]
     }
